@@ -1,4 +1,4 @@
-REPO_FIX_COMMITS = ['2d7a94d', '41c6b34', '15c99e7']
+REPO_FIX_COMMITS = ['2d7a94d', '41c6b34', '15c99e7', '0752c0c', '7f84765', 'af57352', 'e33a24d', '5bdc6b3']
 NOT_APPLICABLE = {}
 CHECKS = {
  'C18': dict(
@@ -20,4 +20,14 @@ CHECKS = {
   note='Conventions fixed in DESIGN 3/C04 (f2 vs n\'/phi etc.); three sign findings are weakened inside their regions '
        '(known_findings.json); conditioning guard for near-afocal systems.',
   design='3/C04'),
+ 'C02': dict(
+  technique='Hypothesis-generated lenses x ray bundles (and the 24 enumerated samples) checked by an independent '
+            'per-surface law checker (own frames, sag/gradient, dispersion, conic intersection)',
+  level='Every recorded surface hit of every generated ray is checked for on-surface residual, unit direction, '
+        'vector Snell / reflection law, half-space, optical path and non-finite discipline against geometry and media '
+        're-derived from the spec. Counter-example search with measured class coverage (shapes, mirrors, tilts, TIR, '
+        'misses), not proof.',
+  note='Tolerances in DESIGN 3/C02; non-finite discipline asserted for closed-form shapes with clear margins only; '
+       'Chebyshev normals are checked against the library\'s mis-scaled gradient inside the known finding\'s region.',
+  design='3/C02'),
 }
